@@ -12,6 +12,8 @@ T = {
          "static (un)marshall is exercised immediately after constructing an instance of the class (the class-level state is C09's subject); model of converter.py hand-written, tied by C10's correspondence"),
  "C03": ("Lean theorems buffers_match / param_list_buffers (all argument values), SAT transfer rules for ATA, iSCSI direction; all_commands_allocate_by_rule decided on regenerated constructor descriptions; correspondence with real constructors and the iSCSI stand-in",
          "READ CD over-allocation (3072 B/sector) proved as stated, not judged; READ CAPACITY(10) has no allocation-length field; ATA transfer computation is a hand model tied by exhaustive enumeration of the flag combinations"),
+ "C04": ("Lean: DataCompat.compatible_sound (decode_bits with a table that sits on the standard's fields returns the device's values for all in-range values and any trailing bytes) + all_response_tables_conform decided by the kernel on the 66 regenerated response tables; decoder theorems for all values / descriptor counts / trailing bytes: READ CAPACITY 10/16, standard INQUIRY, VPD 00/80/86/B0/B1/B2/B3, PR IN READ KEYS / READ RESERVATION, READ DISC INFORMATION (track, POW), GET LBA STATUS, REPORT LUNS; correspondence: conformant responses of all 24 formats encoded by the Lean oracle, fed to the real parsers, compared with the values sent and with the Lean decoder model",
+         "decoder-level theorems are not yet proved for MODE SENSE, VPD 83h, RTPG, READ ELEMENT STATUS, READ FULL STATUS, REPORT PRIORITY, REPORT CAPABILITIES (two readings of the type mask), standard disc information (msb/lsb combination) and READ CD: for those the tables are proved conformant and the decoders are tied by correspondence only; structured responses other than GET LBA STATUS / REPORT LUNS / READ KEYS are composed by the harness from Lean-encoded blocks; Std/DataIn.lean is from knowledge and leaves out the ATA Information VPD page, SOP TransportIDs, designator type 9h, READ CD layouts outside the listed ones"),
  "C09": ("Lean theorem isolation for every schedule (any number of threads, any interleaving of constructor / encode / decode actions at attribute-access granularity), witness of the pre-repair design, sequential histories; correspondence incl. two real threads under a deterministic line-level scheduler through all interleavings with <= 2 preemptions",
          "atomicity of attribute access under the GIL is assumed; the shared-state model (per-class CDB length, immutable class layouts) is hand-written and tied by histories and enumerated schedules; every construction of a class uses an opcode of the same group"),
  "C10": ("Lean theorems about the converter model (all widths, alignments, offsets, values, prior contents) + high-volume correspondence of the four converter functions with the model",
@@ -23,7 +25,7 @@ T = {
  "C08": ("Lean theorems never_raises and reports_spc_fields for every non-empty sense buffer (any response code, length, contents), T10 texts of ~80 well-known ASC/ASCQ codes decided on the regenerated table; correspondence incl. all 65536 pairs",
          "sense layout/text tables regenerated from source; Std/Sense.lean text list is partial (remaining table entries modelled, not verified); length-0 buffers outside the property"),
  "C11": ("Lean: every decoder model is a total function (each loop accepted by the termination checker with a proof that the buffer shrinks) and iteration-count bounds proved for every byte string; witness that the pre-repair READ ELEMENT STATUS loop diverges; on the real code every unmarshall routine and the sense decoder run under a traced-line budget on hostile buffers, and agree with the model where both decode",
-         "termination of the real Python code is decided by the budgeted run (Lean cannot exhibit a hang of the real program); decoder models hand-written, tied on ~40k hostile buffers; REPORT PRIORITY has no model"),
+         "termination of the real Python code is decided by the budgeted run (Lean cannot exhibit a hang of the real program); decoder models hand-written, tied on ~40k hostile buffers"),
  "C12": ("Lean theorems: the conformant target (decoding by byte position) refines an abstract disk for every sequence of write/write-same/sync/read commands (induction), write-then-read for any LBA/length/block size/payload, capacity and identity replies; library CDBs are conformant by C01; correspondence runs the real facade over both transports against the Lean target",
          "the target is a Lean model (real devices/bindings not verified); composition with C01/C03 is by citation of those theorems' conclusions (Conformant hypothesis); WRITE SAME is covered at the target-effect level"),
  "C13": ("Lean theorems about the facade method model for all behaviours of constructor/device/decoder + kernel-decided facts about the 38 methods (shape, documented class, opcode source, by-name forwarding) on the description regenerated from scsi.py; correspondence over a recording device with every subset of optional kwargs and failure injection",
